@@ -32,10 +32,13 @@ def run(ctx):
     if f is not None:
         ev = evaluate(f)
         cfg = f.cfg
-        for h, ok, detail in F.loops_push_every_iteration(f):
-            ctx.ob("E4.accumulate", fk + "/every-element", ok, "every loop iteration adds its element or leaves through Err: " + detail, where=where(f, h))
-        cov = [R.covers_all(s, "sigs") for _, s in R.loop_sources(f)]
-        adds0 = [s for s in ev.sites.values() if s.callee[0] == "Add::add" and any(x.op == "index" and B._const_int(x.a[1]) == 0 for x in subterms(s.args[1]))]
+        accs = F.accumulators(P, f)
+        for a_ in accs:
+            ctx.ob("E4.accumulate", fk + "/every-element", a_["every"], "every element is added or the function leaves through Err (%s)" % a_["mode"], where=where(a_["fn"], a_["bb"]))
+        if not accs:
+            ctx.ob("E4.accumulate", fk + "/every-element", False, "no accumulation found", where=where(f))
+        cov = [R.covers_all(a_["source"], "sigs") for a_ in accs if a_["source"] is not None]
+        adds0 = [s for s in ev.sites.values() if s.callee[0] == "Add::add" and any((x.op == "index" and B._const_int(x.a[1]) == 0) or (x.op == "cidx" and x.a[1] == 0) for x in subterms(s.args[1]))]
         ctx.ob("E4.accumulate", fk + "/covers-all", cov == ["all"] or (cov == ["tail1"] and len(adds0) >= 1), "loop iterates %s and sigs[0] is added %d time(s) on the exits" % (cov, len(adds0)), where=where(f))
         check_arm_purity(ctx, "E2-A", P, [f])
         SP.check_variant_preserved(ctx, "E2.variant", P, f, "MultiSignature", min_variants=2)
